@@ -94,15 +94,15 @@ var cliRefusals = []string{"one-sequence", "three-sequences", "empty-file", "mis
 
 // fixed command lines: the defects found on the pinned tree through the command, and the documented example
 var cliWitnesses = []cliCase{
-	{Seqs: []string{"A", "A"}, MatchGiven: true, MismatchGiven: true, Sc: scheme{"", 1, -1, -10, -0.5}, Log: true, OutFmt: "fasta"},
-	{Seqs: []string{"AT", "CA"}, Sc: scheme{"auto", 0, 0, -10, -0.5}, Log: true, OutFmt: "fasta"},
-	{Seqs: []string{"CAA", "GAA"}, MatchGiven: true, Sc: scheme{"", 1, -1, -10, -0.5}, Log: true, OutFmt: "phylip"},
-	{Seqs: []string{"ACG", "AGAG"}, MatchGiven: true, MismatchGiven: true, OpenGiven: true, ExtendGiven: true, Sc: scheme{"", 4, -1, -2, -0.5}, Log: true, OutFmt: "fasta"},
-	{Seqs: []string{"AAGA", "AA"}, MatchGiven: true, OpenGiven: true, Sc: scheme{"", 4, -1, -2, -0.5}, Log: true, OutFmt: "fasta"},
-	{Seqs: []string{"EF", "EQLF"}, Protein: true, OpenGiven: true, ExtendGiven: true, Sc: scheme{"auto", 0, 0, -3.25, -0.25}, Log: true, OutFmt: "fasta"},
-	{Seqs: []string{"HEAGAWGHEE", "PAWHEAE"}, Protein: true, Sc: scheme{"auto", 0, 0, -10, -0.5}, Log: true, OutFmt: "clustal"},
-	{Seqs: []string{"C", "G"}, MismatchGiven: true, Sc: scheme{"", 1, -1, -10, -0.5}, Log: true, OutFmt: "fasta"},
-	{Seqs: []string{"CTGGGGTTTAACCAGCCATGCCAGTGCAGGTTTAAGAACCGATCCGTACTCTGGGTTACTGATGAAGGATGGGCCGTATCGCCCCCTTGCGACGTTTCCA", "TATTATCGTATCGTTTGCATAGACCCGTTATGCCAGCAGATACAGCGTCACAAACTTAGGCTGTAGGGCGTTAGCGGCGCTCCATGTTTAGACTCACGCC"}, Sc: scheme{"auto", 0, 0, -10, -0.5}, Log: true, OutFmt: "fasta"},
+	{Seqs: []string{"A", "A"}, MatchGiven: true, MismatchGiven: true, Sc: scheme{Matrix: "", Match: 1, Mismatch: -1, Open: -10, Extend: -0.5}, Log: true, OutFmt: "fasta"},
+	{Seqs: []string{"AT", "CA"}, Sc: scheme{Matrix: "auto", Match: 0, Mismatch: 0, Open: -10, Extend: -0.5}, Log: true, OutFmt: "fasta"},
+	{Seqs: []string{"CAA", "GAA"}, MatchGiven: true, Sc: scheme{Matrix: "", Match: 1, Mismatch: -1, Open: -10, Extend: -0.5}, Log: true, OutFmt: "phylip"},
+	{Seqs: []string{"ACG", "AGAG"}, MatchGiven: true, MismatchGiven: true, OpenGiven: true, ExtendGiven: true, Sc: scheme{Matrix: "", Match: 4, Mismatch: -1, Open: -2, Extend: -0.5}, Log: true, OutFmt: "fasta"},
+	{Seqs: []string{"AAGA", "AA"}, MatchGiven: true, OpenGiven: true, Sc: scheme{Matrix: "", Match: 4, Mismatch: -1, Open: -2, Extend: -0.5}, Log: true, OutFmt: "fasta"},
+	{Seqs: []string{"EF", "EQLF"}, Protein: true, OpenGiven: true, ExtendGiven: true, Sc: scheme{Matrix: "auto", Match: 0, Mismatch: 0, Open: -3.25, Extend: -0.25}, Log: true, OutFmt: "fasta"},
+	{Seqs: []string{"HEAGAWGHEE", "PAWHEAE"}, Protein: true, Sc: scheme{Matrix: "auto", Match: 0, Mismatch: 0, Open: -10, Extend: -0.5}, Log: true, OutFmt: "clustal"},
+	{Seqs: []string{"C", "G"}, MismatchGiven: true, Sc: scheme{Matrix: "", Match: 1, Mismatch: -1, Open: -10, Extend: -0.5}, Log: true, OutFmt: "fasta"},
+	{Seqs: []string{"CTGGGGTTTAACCAGCCATGCCAGTGCAGGTTTAAGAACCGATCCGTACTCTGGGTTACTGATGAAGGATGGGCCGTATCGCCCCCTTGCGACGTTTCCA", "TATTATCGTATCGTTTGCATAGACCCGTTATGCCAGCAGATACAGCGTCACAAACTTAGGCTGTAGGGCGTTAGCGGCGCTCCATGTTTAGACTCACGCC"}, Sc: scheme{Matrix: "auto", Match: 0, Mismatch: 0, Open: -10, Extend: -0.5}, Log: true, OutFmt: "fasta"},
 }
 
 func genCliCase(r *gen.Rand, idx int) cliCase {
@@ -412,15 +412,15 @@ func runCli(c *mon.Case) {
 		nt2, aa2 := seqClass(b)
 		switch {
 		case nt1 && nt2:
-			schemes = append(schemes, scheme{"dnafull", 0, 0, k.Sc.Open, k.Sc.Extend})
+			schemes = append(schemes, scheme{Matrix: "dnafull", Open: k.Sc.Open, Extend: k.Sc.Extend})
 		case aa1 && aa2:
-			schemes = append(schemes, scheme{"blosum62", 0, 0, k.Sc.Open, k.Sc.Extend})
+			schemes = append(schemes, scheme{Matrix: "blosum62", Open: k.Sc.Open, Extend: k.Sc.Extend})
 		default:
 			panic("harness: generated a nucleotide against protein pair")
 		}
 		c.Count("cli:scoring:matrix")
 	} else {
-		schemes = []scheme{{"", k.Sc.Match, k.Sc.Mismatch, k.Sc.Open, k.Sc.Extend}}
+		schemes = []scheme{{Match: k.Sc.Match, Mismatch: k.Sc.Mismatch, Open: k.Sc.Open, Extend: k.Sc.Extend}}
 		switch {
 		case k.MatchGiven && k.MismatchGiven:
 			c.Count("cli:scoring:match+mismatch")
